@@ -70,7 +70,7 @@ CHECKS['C03'] = {
         'f64 arithmetic and chrono DateTime/Duration arithmetic are uninterpreted total functions (chrono range overflow is not modelled)',
         'termination of evaluate (recursion on strict sub-expressions) is not checked: evaluate is external_body for its callers',
     ],
-    'unproved': ['evaluate arms FunctionCall for regexp_matches, array, array_unique, now, EXTRACT(EPOCH), date_trunc', 'parser_tree_converter::transform_expression arms IN / Call / CASE (closures capturing the lowering state), extract_aggregate (recursive in-place swap), create_create_table_statement'],
+    'unproved': ['evaluate arms FunctionCall for regexp_matches, array, array_unique, now, EXTRACT(EPOCH), date_trunc', 'parser_tree_converter::transform_expression arms IN / Call / CASE (closures capturing the lowering state), extract_aggregate (recursive in-place swap)'],
 }
 CHECKS['C09'] = {
     'verus_units': ['eval', 'follow', 'select', 'engine', 'extract', 'parser', 'tokenizer', 'converter', 'valuetype', 'output', 'executor', 'aggregate', 'aggdispatch', 'aggresult', 'join', 'joinload', 'mapping'],
@@ -138,22 +138,22 @@ CHECKS['C11'] = {
 }
 
 CHECKS['C01'] = {
-    'verus_units': ['extract', 'valuetype', 'parser'],
+    'verus_units': ['extract', 'valuetype', 'parser', 'converter'],
     'clause_prefixes': ['c01'],
     'technique': 'contract-based deductive verification (Verus): ColumnParsing::extract_using_regex, the Regex / MultiRegex-array / MultiRegex-timestamp arms of ColumnParsing::extract, ColumnDefinition::default_value and TableDefinition::extract extracted from /repo against a specification of "the referenced group of the referenced pattern, typed"',
     'claim': 'Proof for all column definitions, match results and lines that each regex/split column holds exactly sem_ref(type, line, reference, default): the text of the referenced group of the referenced pattern converted by the declared type (BOOLEAN = presence, NULL when not a literal, DEFAULT/NULL when pattern or group did not take part), arrays position by position, TIMESTAMP columns built from exactly the integer groups as mathematical integers (an out-of-range part gives the default, never a wrapped value), TRIM on TEXT only, and that the row is all columns in definition order or empty at the first NULL NOT NULL column.',
-    'note': 'Trusted: the regex crate (leftmost match, group text, split) behind the VCaptures / VRegexResults stand-ins, ValueType::parse as an uninterpreted function inside unit extract (its body is under contract in unit valuetype: the result has the requested type or is NULL, TEXT verbatim, INT / REAL / BOOLEAN by the std parsers, INTERVAL needs three fitting parts; the chrono TIMESTAMP parser is a stand-in), chrono civil-time construction (sem_civil), str::trim. Unproved: the month-name branch of the timestamp arm (stubbed), CREATE TABLE syntax -> definition mapping (parser).',
+    'note': 'Trusted: the regex crate (leftmost match, group text, split) behind the VCaptures / VRegexResults stand-ins, ValueType::parse as an uninterpreted function inside unit extract (its body is under contract in unit valuetype: the result has the requested type or is NULL, TEXT verbatim, INT / REAL / BOOLEAN by the std parsers, INTERVAL needs three fitting parts; the chrono TIMESTAMP parser is a stand-in), chrono civil-time construction (sem_civil), str::trim. CREATE TABLE side (units parser, converter): Parser::parse_create_table is proved to return, for every token vector, one column per written column definition in the written order, each with exactly the written pattern[group] references (all of them, in order), the inline form bound to group 1 of a capture pattern of its own, a { path } column with exactly the written steps, and the patterns (name, text, split/match mode) as written; parse_define_column is proved to set exactly the option its modifier token names (NOT NULL, TRIM on TEXT only, CONVERT, MICROSECONDS, DEFAULT literal of the column type); create_create_table_statement / transform_statement are proved to carry name, patterns and columns into TableDefinition::new unchanged with the documented defaults for undeclared options; TableDefinition::new (unit extract) keeps patterns by name in order. Unproved: the month-name branch of the timestamp arm (stubbed).',
     'level': 'proof',
     'explanation': 'sem_column / sem_row are written from the property statement over an abstract match result; the extracted code is proved equal to them, loop invariants spliced by ordinal.',
     'trusted': COMMON_TRUST + ['regex crate semantics behind stand-ins', 'ValueType::parse, str::trim, chrono NaiveDate/NaiveTime construction as uninterpreted functions'],
-    'unproved': ['timestamp month-name branch', 'parser_tree_converter::create_create_table_statement (ParserColumnDefinition -> ColumnDefinition)', 'regex crate (matching)'],
+    'unproved': ['timestamp month-name branch', 'regex crate (matching)', 'vx_pattern_refs: the closure that borrows (name, text, mode) triples for TableDefinition::new is a stand-in (tuple-pattern closure returning borrows)', 'the expression parser behind DEFAULT literals (stand-ins)'],
 }
 CHECKS['C02'] = {
-    'verus_units': ['extract', 'parser'],
+    'verus_units': ['extract', 'parser', 'converter'],
     'clause_prefixes': ['c02'],
     'technique': 'contract-based deductive verification (Verus): JsonAccess::get_value (recursive, with decreases), the Json arm of ColumnParsing::extract and the scalar arms of ValueType::convert_from_json extracted from /repo against json_walk / sem_from_json',
     'claim': 'Proof for all paths and JSON trees that get_value returns exactly the value addressed by following fields and array indexes (None as soon as a step is absent), and that a JSON column is that value converted without coercion (INT only from as_i64, REAL from as_f64, TEXT only from strings, BOOLEAN only from booleans, CONVERT = parse of a JSON string as the declared type, wrong type = NULL, absent path = DEFAULT/NULL). Termination of the path walk is proved.',
-    'note': 'Trusted: serde_json parsing and accessors behind the VJson stand-in (as_i64 only for integers within 64 bits etc. is serde_json documentation). Unproved: element-wise array conversion (iterator chain, stubbed arm), JsonAccess::from_linear (into_iter().rev()), ParsingInput::new (invalid JSON => JSON null).',
+    'note': 'Trusted: serde_json parsing and accessors behind the VJson stand-in (as_i64 only for integers within 64 bits etc. is serde_json documentation). The JSON column syntax is covered in units parser / converter: parse_create_table returns for `{ .a.b[0] } => name TYPE` a JSON column whose path is exactly the written steps in order (JsonAccess::from_linear under contract), with the modifier its token names, and the lowering keeps it. Unproved: element-wise array conversion (iterator chain, stubbed arm).',
     'level': 'proof',
     'explanation': 'json_walk is the recursive specification of the path; the extracted get_value is proved equal to it with decreases self.',
     'trusted': COMMON_TRUST + ['serde_json::Value accessors as specified stand-ins'],
@@ -176,11 +176,11 @@ CHECKS['C14'] = {
     'clause_prefixes': ['c14'],
     'technique': 'contract-based deductive verification (Verus) of tokenize (with its local TokenizerState), TokenLocation::extract_near and the parser\'s token cursor (Parser::new/next/current/current_location/create_error/expect_token/expect_and_consume_token, ParserError::new) extracted from /repo',
     'claim': 'Proof for every text that parse_str (tokenize, then the recursive-descent parser) returns a parse tree or an error whose position lies inside the text: every parser function carries the postcondition that an error points at a token, every token is located inside the text; proof that tokenize cannot panic, that the line/column it keeps are the position of the consumed prefix, that every token and every tokenizer error is located inside the text (the position of some offset 0..=len) and that the token vector ends with Token::End; proof that TokenLocation::extract_near cannot panic for any location and text (every word range lies inside the line, no index underflow); proof that parse / parse_select / parse_multiple_create_table / parse_create_table / parse_define_column / parse_type (a statement is accepted only if every token up to End was consumed; every clause loop keeps the cursor on a token) and the operand-level functions (parse_primary_expression, parse_identifier_expression, parse_list, parse_arguments, consume_identifier / consume_string / consume_int, expect_and_consume_operator) keep the cursor on a token and fail with a located error instead of panicking; proof (cursor kernel) that once the first next() succeeded the parser cursor stays inside the token vector, next() at the end is an error and not a step, current()/current_location() never index out of bounds and every error created carries the location of a real token. NOT decided: termination of the parser (recursion depth), the arms of the tree converter that are not under contract, and the precedence-climbing function as a callee (its body is verified; as a callee it is a stand-in that is ASSUMED to keep the cursor on a token and to report errors at tokens).',
-    'note': 'Trusted: Peekable<Chars> as a cursor over the character sequence (VChars), Unicode class predicates uninterpreted (a line break is not alphanumeric), str::lines().nth / chars().collect / String::from_iter(&v[a..b]) / format! as stand-ins with the slice-range precondition, Vec length <= usize::MAX. Termination of the tokenizer loops is not proved. Unproved: all parse_* functions except parse_unary_operator, parser_tree_converter (transform_call_aggregate), TableDefinition::new; the panics found there (extract_near underflow, empty JSON path, string_agg arity) were repaired and are demonstrated by replays.',
+    'note': 'Trusted: Peekable<Chars> as a cursor over the character sequence (VChars), Unicode class predicates uninterpreted (a line break is not alphanumeric), str::lines().nth / chars().collect / String::from_iter(&v[a..b]) / format! as stand-ins with the slice-range precondition, Vec length <= usize::MAX. Termination of the tokenizer loops is not proved. The statement grammar (parse_select, parse_join, parse_create_table, parse_define_column, parse_type, parse_regex_mode, ...) is under contract for cursor safety, error location and - new - monotonicity: no grammar function ever moves the cursor back (assumed for the two stand-ins of the recursive expression core). The panics found earlier (extract_near underflow, empty JSON path, string_agg arity) were repaired and are demonstrated by replays.',
     'level': 'proof',
     'explanation': 'Tokenizer: loop invariant at_offset(state, text, n) (rest of the iterator = text.skip(n), line = number of line breaks and column = characters after the last line break of text.take(n)); next_char and add carry it in universally quantified postconditions. Cursor safety is the invariant 0 <= index < tokens.len() established by next() and required by every accessor.',
     'trusted': COMMON_TRUST,
-    'unproved': ['Parser::parse_regex_mode (match guards: Verus loses the frame)', 'parser_tree_converter: transform_expression arms IN / Call / CASE, extract_aggregate, create_create_table_statement (iterator closures)'],
+    'unproved': ['precedence climbing core (parse_expression_internal / parse_binary_operator_rhs are stand-ins with assumed contracts)', 'parser_tree_converter: transform_expression arms IN / Call / CASE, extract_aggregate (iterator closures, in-place swap)'],
 }
 
 CHECKS['C12'] = {
